@@ -69,6 +69,17 @@ def cases(tier, seed):
                     for where in ("seq", "bare"):
                         yield {"k": "tworuns", "n": n, "ctx": ctx, "take": k, "order": order,
                                "where": where}
+    # flows whose pickled form takes tens to hundreds of kilobytes (thousands of values)
+    for shape in ("seq", "source", "last", "two", "tmpl"):
+        for n, ctx in ((1500, True), (4000, True), (20000, False), (70000, False)):
+            if tier == "quick" and n in (4000, 70000) and shape not in ("seq", "last"):
+                continue
+            for crash in (None, ["consumer", n // 2], ["upstream", n - 3]):
+                for later in (LATERS[0], LATERS[1], LATERS[3]):
+                    if crash is not None and later is not LATERS[0]:
+                        continue
+                    yield {"shape": shape, "n": n, "ctx": ctx, "crash": crash, "later": later,
+                           "big": 1}
     for shape in SHAPES:
         for n in range(0, nmax + 1):
             for ctx in [False, True] + (["special"] if shape not in ("acc", "grow") and n >= 2
